@@ -291,6 +291,14 @@ def NormalForm (s : Str) : Prop := ∃ d : Loc, d.Valid ∧ s = render d
 /-- spec of processPath -/
 def processPathS (p : Str) : Str := render (denote p)
 
+/-- the documented table of prettyPath, read off the location -/
+def prettySpec (d : Loc) (isDirectory : Bool) : Str :=
+  if d.names = [] then
+    if d.ups = 0 then (if d.abs then ['/'] else ['.'])   -- root resp. current directory
+    else (render d).dropLast                               -- ends in "..": never a trailing '/'
+  else if isDirectory then render d                        -- "<...>/name/"
+  else (render d).dropLast                                 -- "<...>/name"
+
 def prettyPathS (p : Str) (isDirectory : Bool) : Str := prettyPathWith processPathS p isDirectory
 def relativePathS (newbase p : Str) : RelRes := relativePathWith processPathS newbase p
 
